@@ -152,6 +152,9 @@ def run_racing(ctx):
     state = {"snapshots": None, "rec": None, "progress": 0}
 
     def on_boundary(code, offset, kind):
+        if kind == "resume" and offset <= 6 and names.get(id(code)) == "_parse_exception_table":
+            # one call per attempt of the consistency loop (+ one after it)
+            state["pet_starts"] = state.get("pet_starts", 0) + 1
         # the tape decides whether the inspected thread(s) make progress here
         c = t.weighted([14, 3, 1, 1, 1])
         if c == 0:
@@ -240,6 +243,7 @@ def run_racing(ctx):
                 state["snapshots"] = [entered_managers(rec)]
                 with_info = _lowlevel.analyze_with_blocks(fr.f_code)
                 res = None
+                state["pet_starts"] = 0
                 with Preempt(codes, on_boundary) as pre:
                     try:
                         res = lowlevel.inspect_frame(fr)
@@ -247,6 +251,8 @@ def run_racing(ctx):
                         ctx.stat("snapshot_rejected")
                         if "consistent" in str(e):
                             ctx.stat("retry_loop_exhausted")
+                if state.get("pet_starts", 0) > 2:
+                    ctx.stat("retry_loop_taken")
                 snaps = state["snapshots"]
                 state["snapshots"] = None
                 state["rec"] = None
